@@ -22,7 +22,7 @@ ASSUMPTIONS = [
     "algorithmic parameters are identical in both runs; only level, display_interval, callbacks, collect_path, report_rcond and the clock plan differ",
 ]
 TIERS = {
-    "quick": {"worlds": 300, "wall": 150, "cap": 30, "limit": 90.0},
+    "quick": {"worlds": 600, "wall": 150, "cap": 30, "limit": 90.0},
     "thorough": {"worlds": 6000, "wall": 1700, "cap": 120, "limit": 240.0},
 }
 GATES = ("silent.region_fault_fired", "variant.debug", "variant.rows_displayed", "variant.touch", "variant.rcond", "variant.path", "observer.log_records", "observer.rows")
